@@ -269,6 +269,11 @@ func genScenario(r *rand.Rand, id string, withColon bool) *Scenario {
 	// instruments
 	ninst := 1 + r.Intn(4)
 	scopes := []string{"sA", "sB", "sC"}[:1+r.Intn(3)]
+	if r.Intn(8) == 0 {
+		// a second scope with the name and version of sA that differs only in its schema URL
+		sc.Scopes = []ScopeRec{{ID: "sA2", Name: "sA", Version: "vsA", URL: "https://example.com/schema/2"}}
+		scopes = append(append([]string{}, scopes...), "sA2")
+	}
 	insts := []Inst{}
 	seen := map[string]bool{}
 	var base []Tok
@@ -317,7 +322,7 @@ func genScenario(r *rand.Rand, id string, withColon bool) *Scenario {
 		case x < 8:
 			in := insts[r.Intn(next)]
 			b, _ := json.Marshal(in.ID)
-			sc.Ops = append(sc.Ops, Op{Op: "Rec", Inst: b, id: in.ID, AS: 1 + r.Intn(len(sc.ASes)), V: genValueFor(r, in.Kind)})
+			sc.Ops = append(sc.Ops, Op{Op: "Rec", Inst: b, id: in.ID, AS: 1 + r.Intn(len(sc.ASes)), V: fnum(genValueFor(r, in.Kind))})
 		default:
 			sc.Ops = append(sc.Ops, Op{Op: "Scrape"})
 		}
@@ -405,5 +410,8 @@ func classify(res *vh.Result, sc *Scenario) {
 	}
 	if sc.Ops[0].Opts.ResConst {
 		res.Count("in-resource-constant-labels", 1)
+	}
+	if len(sc.Scopes) > 0 {
+		res.Count("in-scope-differs-only-in-schema-url", 1)
 	}
 }
